@@ -237,9 +237,11 @@ upwards, and resets downwards on a deep fork), clock ticks.  Hypotheses that bou
 * the ticks add up to at most `orphanExpirationTime` — no waiting orphan expires;
 * no restart (a restart forgets side branches and the pool);
 * every finalised height requested, and the initial one, is `≤ Fmax`.
-If the heaviest block `w` is unique and `Fmax + margin ≤ w.height`, the run never panics, the best
-chain is the branch of `w`, and the persisted chain equals that of a fresh node fed only that
-branch in order. -/
+If the heaviest block `w` is unique and `Fmax + margin ≤ w.height`: no start-up panics (`runX … =
+some x`, immediate without restarts), EVERY delivery of the run is answered main / side / orphan /
+already-have-it (`Res.fine`: in particular never `.err .panic` — the `removeOrphanBlock(nil)` of a
+full pool — nor any other error), the best chain is the branch of `w`, and the persisted chain
+equals that of a fresh node fed only that branch in order. -/
 theorem order_independent_events {M : Type} [OMap M] [LawfulOMap M] {g : Block} {T : List Block}
     (ht : Tree g T) (F Fmax m : Nat) (r : Bool) (lim ttl : Nat) (es : List Event)
     (hnr : ∀ e ∈ es, e ≠ Event.restart)
@@ -251,6 +253,7 @@ theorem order_independent_events {M : Type} [OMap M] [LawfulOMap M] {g : Block} 
     let path := chainTo (g :: T) w.height w
     let sref := deliverAll (init F m r g) path.reverse.tail
     ∃ x, runX (initX M F m r g lim ttl) es = some x ∧
+      (∀ res ∈ resultsX (initX M F m r g lim ttl) es, Res.fine res = true) ∧
       x.base.best = path ∧ sref.best = path ∧ x.base.h2h = sref.h2h ∧ x.base.last = sref.last ∧
       x.base.txIdx = sref.txIdx ∧
       (∀ y ∈ path, x.base.stored y.id = sref.stored y.id ∧ x.base.tds y.id = sref.tds y.id) ∧
@@ -265,11 +268,11 @@ theorem order_independent_events {M : Type} [OMap M] [LawfulOMap M] {g : Block} 
       fun h0 => hb.tipMax (by omega),
       fun w' hw' hmax' hel' => hb.win w' hw' hmax' (by omega),
       Nat.le_trans hb.finLe hF, hb.txv⟩
-  obtain ⟨x, hrun, hr, hm⟩ := runX_run ht es [] _ h0 hlim hnr
+  obtain ⟨x, hrun, hr, hm, hres⟩ := runX_run ht es [] _ h0 hlim hnr
     (fun b hb => hds b (mem_delivered.mpr hb)) hfin (by simpa [initX] using htime)
   have hmarg : x.base.margin = m := by rw [hm]; rfl
   have hall' : ∀ b ∈ T, b ∈ [] ++ delivered es := fun b hb => by simpa using hall b hb
-  exact ⟨x, hrun, converged ht hr.run hall' hw hmax (by rw [hmarg]; exact hel) F m r⟩
+  exact ⟨x, hrun, hres, converged ht hr.run hall' hw hmax (by rw [hmarg]; exact hel) F m r⟩
 
 /-! ### the bounds are needed: refuting witnesses (orphan metadata as a function, `decide`) -/
 
